@@ -500,7 +500,9 @@ def main(ctx):
         rec.ok(case, outcome="longhist:%s" % pat, nontrivial=True, calls=2)
 
     import math
-    lmarks = ctx.pick((65536, 100000, 1000000), (4096, 65536, 100000, 1000000, 1048576, 2000000))
+    # (the pure-Python engine needs about 1.3 s per million data: 3*10^6 - a multiple of 10^k, 2*10^5, 3*10^5, 5*10^5,
+    # 6*10^5, 1.5*10^6 ... - and 2^20 in the quick tier, the universal marks of mc/longarr.py in the thorough tier)
+    lmarks = ctx.pick((65536, 100000, 3000000, 1048576), (4096, 65536, 100000, 1000000, 3000000, 1048576, 6000000, 2097152))
     lhunits = [(m, pat, d) for m in lmarks for pat in ("split", "one-bin", "gaps", "late") for d in (-1, 0, 1)]
     ctx.lattice("long-inputs-at-block-marks", lhunits, one_longhist,
                 bounds=dict(marks=list(lmarks), patterns=["split", "one-bin", "gaps", "late"], offsets=[-1, 0, 1], engines=["compiled", "python"]))
